@@ -1463,7 +1463,16 @@ func (q *SearchQuery) pickCandidateSource(s *search) (src candidateSource) {
 				if typs := c.matchesPermanodeTypes(); len(typs) != 0 {
 					src.name = "corpus_permanode_types"
 					src.send = func(ctx context.Context, s *search, fn func(camtypes.BlobMeta) bool) error {
-						corpus.EnumeratePermanodesByNodeTypes(fn, typs)
+						// A permanode is enumerated once per listed type it ever had
+						// (and typs may repeat a type), but must be a candidate only once.
+						seen := make(map[blob.Ref]bool)
+						corpus.EnumeratePermanodesByNodeTypes(func(bm camtypes.BlobMeta) bool {
+							if seen[bm.Ref] {
+								return true
+							}
+							seen[bm.Ref] = true
+							return fn(bm)
+						}, typs)
 						return nil
 					}
 					return
